@@ -34,7 +34,9 @@ import (
 	"k8s.io/klog/v2"
 )
 
-var errRetry = errors.New("retry")
+// errRetry tells backoff.Retry to try again after a pause. It has to be a
+// backoff.RetriableError: Retry gives up at once on any other plain error.
+var errRetry = backoff.RetriableError("retry")
 
 // PreorderedLogClient is a means of communicating with a single Trillian
 // pre-ordered log tree.
